@@ -140,7 +140,7 @@ def run(ctx):
             root = ctx.scratch(f"h{h}")
             ws = gen.gen_workspace(root, ctx.rng, depth=ctx.rng.randint(1, 3), venv=False, module_pkg_twins=True)
             materialize(ws)
-            steps = with_closes(ctx, hist.gen_history(ws, ctx.rng, ctx.rng.randint(3, max_steps)), ws)
+            steps = with_closes(ctx, hist.gen_history(ws, ctx.rng, ctx.rng.randint(3, max_steps), parses=lambda t: vh.call(op="parses", text=t)["ok"]), ws)
             run_history(ctx, vh, ws, steps, "edits")
             if h < 2:
                 ctx.sample({"workspace": ws.spec, "history": [(s["op"], s["rel"]) for s in steps]})
@@ -150,7 +150,7 @@ def run(ctx):
             root = ctx.scratch(f"c{h}")
             ws = gen.gen_import_cycle_ws(root, ctx.rng)
             materialize(ws)
-            steps = with_closes(ctx, hist.gen_history(ws, ctx.rng, ctx.rng.randint(2, 6), names=ws.spec["names"]), ws)
+            steps = with_closes(ctx, hist.gen_history(ws, ctx.rng, ctx.rng.randint(2, 6), names=ws.spec["names"], parses=lambda t: vh.call(op="parses", text=t)["ok"]), ws)
             run_history(ctx, vh, ws, steps, f"import_cycle_{ws.spec['import_cycle']}", allow_kf_cycle=ws.spec["import_cycle"] >= 3)
             ctx.count("import_cycle_histories")
             shutil.rmtree(root, ignore_errors=True)
